@@ -134,6 +134,16 @@ STRENGTHENED = {
     'C20-w5-c20-m2': 'platform.system() reporting Windows / Darwin / Linux',
     'C20-w5-c20-m3': 'two devices with the same serial number, one transport each, used in turn; clause RaisesOnlyForACause',
     # ---- round 6 (re-entrancy, iteration protocols, time arithmetic, resource hygiene on error paths, interpreter-level corners)
+    'C02-w9-c02-m1': 'reported by C15: one buffer that needs 70 000 write calls (one byte accepted per call)',
+    'C02-w9-c02-m3': 'one outbound message whose payload bytes sum to more than 2^32 (a 21 MB command line)',
+    'C05-w9-c05-m2': 'handshakes on a slow link: several keys, every answer well within the read timeout, the exchange as a whole longer, strays in front of later answers',
+    'C05-w9-c05-m3': 'reported by C13: `available` sampled while connect attempts are in progress',
+    'C10-w9-c10-m1': 'record payloads that are not valid UTF-8 in every AdbSyncOp row',
+    'C11-w9-c11-m1': 'reported by C10: AdbSyncOp rows replayed on a transport that answers silence with empty reads (not with its own timeout error)',
+    'C14-w9-c14-m1': 'exploration with an OPEN the device refuses, overlapped by other threads\' opens, everyone opening again',
+    'C14-w9-c14-m3': 'line-level schedules with a call that raises inside _open (unusable timeouts) next to other opens',
+    'C17-w9-c17-m2': 'signers pickled into a fresh child interpreter, then asked to sign',
+    'C17-w9-c17-m3': 'the documented key attributes of a signer that has already signed are replaced (key rotation on a live object)',
     'C01-w8-c01-m1': 'reported by C19: one queue 5000 packets deep (a flow-controlled adbd never parks that many for one stream)',
     'C01-w8-c01-m2': 'a caller\'s subclass that overrides the public streaming_shell(): shell() / exec_out() still return what the device wrote',
     'C03-w8-c03-m1': 'payloads above 4 KiB under fragmentation: the TYPE of what the caller is handed is compared with unfragmented delivery, not only its value',
